@@ -9,6 +9,26 @@ NOTES = (
 _T = "property-based testing (Hypothesis, generated specs vs. independent oracle)"
 
 CLAIMED = {
+    "C01": {
+        "technique": _T + "; constructive preconditions, covered-cell-set oracle under an independent minimal-image metric",
+        "level": "Generated grids of all four families (Cartesian 1-3D x all periodicity masks x anisotropy 0.4-2.5 x 3.5 decades of spacing) and 0-4 rendered droplets satisfying the stated separation/resolution preconditions by construction; count, volume, half-cell centre bound and in-box position checked against an independent covered-cell oracle. Bounded search (<=24 cells per axis quick, <=48 thorough).",
+        "note": "Knife-edge cells (within 1e-9 R of the surface) skipped and counted; cylindrical droplets kept inside the z-range (py-pde does not wrap z when rendering).",
+    },
+    "C02": {
+        "technique": "exhaustive enumeration of all binary images on small grids (itertools) + Hypothesis-generated structured masks, against an independent BFS connected-component oracle with periodic unwrapping and bipartite matching",
+        "level": "Every binary image on Cartesian grids of 6, 10, 3x3, 3x4, 2x2x3 cells (thorough: up to 14, 4x4, 2x3x3) for every periodicity mask and on cylindrical grids up to 2x5 (thorough 4x4) for both periodic_z, plus generated masks (noise, wrapped boxes, persistent walks) on grids up to 40/16^2/8^3; volume, unwrapped centre of mass, sphere non-overlap and justification of omissions.",
+        "note": "Positions of winding components are not judged; one open known finding (winding on-axis component on periodic cylindrical grids) is excluded by signature and counted.",
+    },
+    "C10": {
+        "technique": _T + "; exhaustive sequences on a 1-D lattice with exact arithmetic; post-condition/invariant oracle",
+        "level": "Generated emulsions (0-8 droplets, ties, radius 0, positions outside the box) x min_distance of either sign x grids with every periodicity mask; all ordered sequences of <=3 (thorough 4) lattice droplets exhaustively; from_random on bounds and every grid family.",
+        "note": "Independent minimal-image metric; tolerance 1e-9 x scale except on the exact lattice domain where equality cases are judged exactly.",
+    },
+    "C11": {
+        "technique": _T + "; three-path differential (python / in-place / numba-compiled), commutativity, merge-tree associativity",
+        "level": "Generated pairs and lists (2-8) of Spherical/Diffuse droplets in 1-3 D over 6 decades of radius, incl. zero radius; all three code paths compared with the textbook formulas and each other; two random merge trees per case.",
+        "note": "Numerical tolerances 1e-12/1e-13/1e-10; the symbolic claim is not reachable by search.",
+    },
     "C12": {
         "technique": _T + "; round trips, variant-agreement differential, r*S=d*V identity, finite-difference derivative",
         "level": "Generated radii/volumes over 30 decades x dims 1-3 x scalar/array layouts; every conversion variant compared with textbook formulas and with each other; bounded search, no proof of the symbolic claim.",
